@@ -319,6 +319,20 @@ func checkC05(c *Check) {
 	cases = append(cases, b3Frames()...)
 	cases = append(cases, b4PrintLines()...)
 	cases = append(cases, b5NumericLookingStrings()...)
+	// families written for other properties whose string constants leave the cmd-neutral alphabet of C05
+	{
+		kept := cases[:0]
+		dropped := 0
+		for _, bc := range cases {
+			if strings.Contains(bc.Key, "elements-shaped-like-options") || strings.Contains(bc.Key, "raw-backslash") {
+				dropped++
+				continue
+			}
+			kept = append(kept, bc)
+		}
+		cases = kept
+		c.Extra["cases_outside_cmd_neutral_alphabet_left_out"] = dropped
+	}
 	c.Extra["enumerated_cases"] = len(cases)
 	nrand := c.Pick(900, 30000)
 	for i := 0; i < nrand; i++ {
